@@ -305,6 +305,18 @@ def obligations(tier, seed):
         obs.append(make_d("later-org:+%d" % g, later_org_g, lambda ctx, out: out.kind == "ok" and _later_org(ctx, out),
                           "ORG o1 / NOP / LDA #1 / ORG o1+3+%d / NOP / RTS: accepted, every byte at its listing address" % g))
 
+    def leading_rmb(ctx):
+        t1, o1 = ctx.lit("H4", "o1")
+        ctx.assume(o1 <= 60000)
+        tn, n = ctx.lit("D2", "n")
+        return [" ORG %s" % t1, "COUNT RMB %s" % tn, "START LDA #1", " STA COUNT", " RTS"]
+    obs.append(make_d("leading-rmb", leading_rmb, lambda ctx, out: out.kind == "ok" and _later_org(ctx, out),
+                      "ORG o / COUNT RMB n / code: the reserved bytes are the start of the image"))
+    obs.append(make_d("leading-rmb-then-org-back", lambda ctx: [" ORG $0E10", "BUF RMB 4", " ORG $0E00", "S NOP", " RTS"], _later_org,
+                      "ORG $0E10 / RMB 4 / ORG $0E00 / code: rejected (or laid out)"))
+    obs.append(make_d("leading-fcb-then-org", lambda ctx: [" ORG $0E00", "T FCB 1,2", " ORG $0E08", "S NOP", " RTS"],
+                      lambda ctx, out: out.kind == "ok" and _later_org(ctx, out), "data first, then a later ORG"))
+
     def later_org_back(ctx):
         t1, o1 = ctx.lit("H4", "o1")
         t2, o2 = ctx.lit("H4", "o2")
